@@ -233,6 +233,14 @@ def embedded_clock(case):
     n_early = rng.randint(0, 2)
     for number in range(n_early):
         env.process(process(env, number, True))
+    # work put on the environment's agenda before it has begun: due its delay after the beginning
+    agenda = [rng.choice([0, 0.5, 2, 3.25]) for _ in range(rng.randint(0, 2))]
+
+    async def scheduled(number, delay):
+        log.append(('scheduled work', number, delay, env.now, time.now))
+
+    for number, delay in enumerate(agenda):
+        env.schedule(scheduled(number, delay), delay=delay)
 
     async def native(number):
         await (time + (number + 0.25))
@@ -273,6 +281,8 @@ def embedded_clock(case):
         for delay in delays:
             now = now + (delay + number)
             want.add(('timeout over', number, now, now))
+    for number, delay in enumerate(agenda):
+        want.add(('scheduled work', number, delay, begin + delay, begin + delay))
     for number in range(2):
         want.add(('native', number, start + number + 0.25))
     for number in range(3):
